@@ -141,6 +141,7 @@ def audit_sequence(servers, opts=('-n', '--skip-rate-test'), threads=1, ports=No
     servers = list(servers)
     resolver, smap = {}, {}
     file_lines, lines = lines, []
+    labels = []
     for i, s in enumerate(servers):
         h = hosts[i] if hosts else 'seq%d.example' % i
         ip = '10.9.%d.1' % (hash(h) % 200)
@@ -149,6 +150,7 @@ def audit_sequence(servers, opts=('-n', '--skip-rate-test'), threads=1, ports=No
         resolver[h] = [(int(socket.AF_INET), ip)]
         smap[(ip, port)] = s
         lines.append(h if port == 22 else '%s:%d' % (h, port))
+        labels.append('%s:%d' % (h, port))
     w = vnet.World(servers=smap, resolver=resolver)
     path = tmp_path('sequence-%d.txt' % os.getpid())
     if file_lines is not None:
@@ -164,4 +166,28 @@ def audit_sequence(servers, opts=('-n', '--skip-rate-test'), threads=1, ports=No
             outs = None
     else:
         outs = _r.split_targets(res.stdout)
-    return res, outs
+    return res, _in_list_order(outs, labels)
+
+
+def _in_list_order(outs, labels):
+    """The tool prints results in *completion* order (futures that are already done when the collecting loop starts come out of a set,
+    in no particular order), so results are matched to targets by the label they carry, not by position.  Falls back to the printed
+    order when labels are missing or ambiguous (e.g. the same target listed twice)."""
+    import re
+    if not isinstance(outs, list) or len(outs) != len(labels) or len(set(labels)) != len(labels):
+        return outs
+    found = {}
+    for o in outs:
+        if isinstance(o, dict):
+            lab = o.get('target') or o.get('host')
+        else:
+            m = re.search(r'^(?:\x1b\[[0-9;]*m)?(?:\(gen\) target: |Host:\s+)(\S+?)(?:\x1b\[[0-9;]*m)?\s*$', o, re.M)
+            lab = m.group(1) if m else None
+        if lab is not None and ':' not in lab:
+            lab += ':22'          # the text report leaves the default port out
+        if lab is None or lab in found:
+            return outs
+        found[lab] = o
+    if set(found) != set(labels):
+        return outs
+    return [found[l] for l in labels]
